@@ -5,6 +5,7 @@ package main
 import (
 	"fmt"
 	"go/types"
+	"regexp"
 	"strings"
 
 	"golang.org/x/tools/go/types/typeutil"
@@ -18,7 +19,24 @@ type Val struct {
 var Ref64 = BV(64)
 var Tag32 = BV(32)
 
+var byteRe = regexp.MustCompile(`\bbyte\b`)
+var runeRe = regexp.MustCompile(`\brune\b`)
+
 func typeName(T types.Type) string {
+	if s, ok := typeNameCache.At(T).(string); ok {
+		return s
+	}
+	s := typeName0(T)
+	s = byteRe.ReplaceAllString(s, "uint8")
+	s = runeRe.ReplaceAllString(s, "int32")
+	typeNameCache.Set(T, s)
+	return s
+}
+
+var typeNameCache typeutil.Map
+
+func typeName0(T types.Type) string {
+	T = types.Unalias(T)
 	return types.TypeString(T, func(p *types.Package) string {
 		path := p.Path()
 		if i := strings.LastIndex(path, "/"); i >= 0 {
@@ -133,7 +151,7 @@ func isPointer(T types.Type) bool {
 type unsupportedErr struct{ msg string }
 
 func (u unsupportedErr) Error() string { return "unsupported: " + u.msg }
-func unsupported(msg string) error    { return unsupportedErr{msg} }
+func unsupported(msg string) error     { return unsupportedErr{msg} }
 
 // zeroVal builds the Go zero value of T.
 func zeroVal(T types.Type) Val {
@@ -297,6 +315,7 @@ var typeOfTag = map[uint64]types.Type{}
 var tagSeq uint64
 
 func typeTag(T types.Type) *Term {
+	T = types.Unalias(T)
 	if v := tagOf.At(T); v != nil {
 		return BVConst(v.(uint64), 32)
 	}
